@@ -14,7 +14,7 @@ LEVEL = 'exploration'
 RULE = ('(shared atoms) molecules cut with [!]-shared atoms whose copies carry annotations (free keys under different names, a weight on one copy or the same weight on both): the merged atom shows everything written on any of the fragment atoms it is a copy of. '
         '(i) spellings: a random assignment of values to the keys reserved at that level (base graph: q,w; fragment atoms, '
         'atomistic and coarse: w,x) plus 0-3 free keys is written in every positional-prefix length and several keyword '
-        'orders, with numeric spellings such as +1, -0.25, 1e-1, .5; all spellings must give equal attribute dicts on the '
+        'orders, with numeric spellings such as +1, -0.25, 1e-1, .5 (plus spellings with a keyword entry before an un-named one: rejected = counted, accepted = must agree); all spellings must give equal attribute dicts on the '
         'graphs returned by read_cgsmiles / read_fragments, equal to an independent model (defaults charge 0.0 / weight 1.0, '
         'reserved numerics are float, free keys verbatim strings). (ii) end-to-end: random units with annotated atoms are '
         'polymerised over annotated base graphs (1..8 uses of a fragment, multiplied nodes); after resolve() every coarse '
